@@ -205,58 +205,79 @@ func registerStubs(m map[string]Intrinsic) {
 		}
 		return nil
 	}
-	smFind := func(e *Exec, items []Value, key Value) int {
+	// smAlts forks over which stored key equals the given one (stored keys are pairwise different): one alternative
+	// per entry whose equality with the key is not refuted, plus the miss. Concrete keys give a single alternative.
+	smAlts := func(e *Exec, items []Value, key Value, hit func(st *State, i int) (Value, bool), miss func(st *State) (Value, bool)) Outcome {
+		var alts []AltOut
+		none := e.C.True
 		for i := 0; i+1 < len(items); i += 2 {
+			i := i
 			eq := e.valuesEqual(items[i], key)
+			if eq.IsFalse() {
+				continue
+			}
+			alts = append(alts, AltOut{Cond: e.C.And(none, eq), ValFn: func(s2 *State) (Value, bool) { return hit(s2, i) }})
 			if eq.IsTrue() {
-				return i
+				none = e.C.False
+				break
 			}
-			if !eq.IsFalse() {
-				unsupportedf("sync.Map with symbolic key")
-			}
+			none = e.C.And(none, e.C.Not(eq))
 		}
-		return -1
+		if !none.IsFalse() {
+			alts = append(alts, AltOut{Cond: none, ValFn: miss})
+		}
+		return Outcome{Kind: OutAlts, Exhaustive: true, Alts: alts}
 	}
-	m["(*sync.Map).Load"] = func(e *Exec, st *State, ci *CallInfo) Outcome {
-		items := smGet(st, smKey(ci))
-		if i := smFind(e, items, ci.Args[1]); i >= 0 {
-			return val(tuple(items[i+1], e.C.True))
-		}
-		return val(tuple(nilIface, e.C.False))
-	}
-	m["(*sync.Map).Store"] = func(e *Exec, st *State, ci *CallInfo) Outcome {
-		k := smKey(ci)
-		items := append([]Value{}, smGet(st, k)...)
-		if i := smFind(e, items, ci.Args[1]); i >= 0 {
-			items[i+1] = ci.Args[2]
-		} else {
-			items = append(items, ci.Args[1], ci.Args[2])
-		}
-		st.extra[k] = &TupleV{E: items}
+	smStoreMon := func(e *Exec, st *State, ci *CallInfo) {
 		if st.frameMon != nil && st.heap[ci.Args[0].(*Ptr).Obj].Epoch < st.frameMon.epoch {
 			st.mayFail = true
 			e.Res.Violations = append(e.Res.Violations, Violation{Msg: "frame[" + st.frameMon.label + "]: store into a pre-existing sync.Map", Inputs: e.InputsUnder(st, e.pathModel(st))})
 		}
-		return val(nil)
+	}
+	m["(*sync.Map).Load"] = func(e *Exec, st *State, ci *CallInfo) Outcome {
+		items := smGet(st, smKey(ci))
+		return smAlts(e, items, ci.Args[1],
+			func(s2 *State, i int) (Value, bool) { return tuple(items[i+1], e.C.True), true },
+			func(s2 *State) (Value, bool) { return tuple(nilIface, e.C.False), true })
+	}
+	m["(*sync.Map).Store"] = func(e *Exec, st *State, ci *CallInfo) Outcome {
+		k := smKey(ci)
+		items := smGet(st, k)
+		return smAlts(e, items, ci.Args[1],
+			func(s2 *State, i int) (Value, bool) {
+				n := append([]Value{}, items...)
+				n[i+1] = ci.Args[2]
+				s2.extra[k] = &TupleV{E: n}
+				smStoreMon(e, s2, ci)
+				return nil, true
+			},
+			func(s2 *State) (Value, bool) {
+				s2.extra[k] = &TupleV{E: append(append([]Value{}, items...), ci.Args[1], ci.Args[2])}
+				smStoreMon(e, s2, ci)
+				return nil, true
+			})
 	}
 	m["(*sync.Map).LoadOrStore"] = func(e *Exec, st *State, ci *CallInfo) Outcome {
 		k := smKey(ci)
-		items := append([]Value{}, smGet(st, k)...)
-		if i := smFind(e, items, ci.Args[1]); i >= 0 {
-			return val(tuple(items[i+1], e.C.True))
-		}
-		items = append(items, ci.Args[1], ci.Args[2])
-		st.extra[k] = &TupleV{E: items}
-		return val(tuple(ci.Args[2], e.C.False))
+		items := smGet(st, k)
+		return smAlts(e, items, ci.Args[1],
+			func(s2 *State, i int) (Value, bool) { return tuple(items[i+1], e.C.True), true },
+			func(s2 *State) (Value, bool) {
+				s2.extra[k] = &TupleV{E: append(append([]Value{}, items...), ci.Args[1], ci.Args[2])}
+				smStoreMon(e, s2, ci)
+				return tuple(ci.Args[2], e.C.False), true
+			})
 	}
 	m["(*sync.Map).Delete"] = func(e *Exec, st *State, ci *CallInfo) Outcome {
 		k := smKey(ci)
-		items := append([]Value{}, smGet(st, k)...)
-		if i := smFind(e, items, ci.Args[1]); i >= 0 {
-			items = append(items[:i], items[i+2:]...)
-			st.extra[k] = &TupleV{E: items}
-		}
-		return val(nil)
+		items := smGet(st, k)
+		return smAlts(e, items, ci.Args[1],
+			func(s2 *State, i int) (Value, bool) {
+				n := append([]Value{}, items[:i]...)
+				s2.extra[k] = &TupleV{E: append(n, items[i+2:]...)}
+				return nil, true
+			},
+			func(s2 *State) (Value, bool) { return nil, true })
 	}
 	m["sync/atomic.AddInt32"] = func(e *Exec, st *State, ci *CallInfo) Outcome {
 		p := ci.Args[0].(*Ptr)
